@@ -28,9 +28,53 @@ open BestPath World
 
 /-! ### policy -/
 
-/-- one policy statement: conditions, modification actions, route action -/
+/-- one entry of a prefix-set: `base/plen lo..hi` -/
+structure PfxEnt where
+  base : Nat
+  plen : Nat
+  lo   : Nat
+  hi   : Nat
+deriving Repr, DecidableEq, Inhabited
+
+/-- one member of an as-path-set, of the forms NewSingleAsPathMatch recognises:
+    mode 0 `_N_` (include), 1 `^N_` (left-most), 2 `_N$` (origin), 3 `^N$` (only) -/
+structure AspEnt where
+  mode : Nat
+  asn  : Nat
+deriving Repr, DecidableEq, Inhabited
+
+/-- the destinations of the world (zz_verif_c01_test.go c01Prefixes): 10.1.0.0/24, 10.2.0.0/24,
+    10.3.0.0/16 as (address, length) -/
+def pfxOf : Nat → Nat × Nat
+  | 0 => (167837696, 24)
+  | 1 => (167903232, 24)
+  | _ => (167968768, 16)
+
+/-- PrefixCondition.Evaluate for one entry: the entry's prefix covers the route's prefix and the
+    route's mask length lies in the entry's range -/
+def PfxEnt.matchesPfx (e : PfxEnt) (k : Nat) : Bool :=
+  let (a, l) := pfxOf k
+  e.plen ≤ l && a / 2 ^ (32 - e.plen) == e.base / 2 ^ (32 - e.plen) && e.lo ≤ l && l ≤ e.hi
+
+/-- Path.GetAsSeqList: members of AS_SEQUENCE segments, one 0 for every other segment -/
+def asSeqList (segs : List Seg) : List Nat :=
+  segs.flatMap (fun s => if s.typ = 2 then s.as else [0])
+
+/-- singleAsPathMatch.Match -/
+def AspEnt.matchesPath (e : AspEnt) (l : List Nat) : Bool :=
+  !l.isEmpty &&
+    (if e.mode = 0 then l.contains e.asn
+     else if e.mode = 1 then l.head? == some e.asn
+     else if e.mode = 2 then l.getLast? == some e.asn
+     else l == [e.asn])
+
+/-- one policy statement: conditions, modification actions, route action.  Every set condition
+    is `ANY` over the CURRENT members of the defined set it refers to (the members are what the
+    configuration says after every append / remove / replace applied to the set). -/
 structure Stmt where
-  comm    : Nat := 0            -- 0: no community condition; else match-community-set ANY {comm}
+  commSet : List Nat := []      -- []: no community condition; else match-community-set ANY
+  pfxSet  : Option (List PfxEnt) := none   -- match-prefix-set ANY
+  aspSet  : Option (List AspEnt) := none   -- match-as-path-set ANY
   aspLen  : Option (Nat × Nat) := none  -- as-path-length condition: (0 eq | 1 ge | 2 le, n)
   anyPeer : Bool := true        -- no neighbor condition
   peers   : List Nat := []      -- match-neighbor-set ANY (peer indices)
@@ -54,10 +98,17 @@ def cmpLen (c : Nat × Nat) (len : Nat) : Bool :=
 /-- Statement.Evaluate: every condition holds. `peer` is the index of PolicyOptions.Info — the
     source peer for import, the target peer for export. -/
 def Stmt.matches (s : Stmt) (peer : Nat) (r : Cand) : Bool :=
-  (s.comm == 0 || r.comms.contains s.comm) && (s.anyPeer || s.peers.contains peer) &&
+  (s.commSet.isEmpty || s.commSet.any (fun c => r.comms.contains c)) &&
+    (s.anyPeer || s.peers.contains peer) &&
     (match s.aspLen with
      | none => true
-     | some c => cmpLen c (asPathLen r))
+     | some c => cmpLen c (asPathLen r)) &&
+    (match s.pfxSet with
+     | none => true
+     | some es => es.any (fun e => e.matchesPfx r.pfx)) &&
+    (match s.aspSet with
+     | none => true
+     | some es => es.any (fun e => e.matchesPath (asSeqList r.segs)))
 
 /-- the ModActions of a statement (on a clone of the path) -/
 def Stmt.modify (s : Stmt) (r : Cand) : Cand :=
